@@ -173,12 +173,13 @@ CHECKS = {
         level='exploration',
         text='The protocol halves of the hop are model-checked elsewhere (DataFraming for content framing, SmtpServer for the '
              'receiving state machine, SmtpClient for reply pairing); this check connects the real StaticSmtpRelay to the real '
-             'edge over a socketpair for generated envelopes and server configurations and lets TLC compare, per execution, the '
+             'SMTP edge over socketpairs (one to three messages per connection) and the real HttpRelay to the real WsgiEdge over '
+             'loopback (with and without keep-alive) for generated envelopes and server configurations and lets TLC compare, per execution, the '
              'envelope the edge handed to its queue with the one given to the relay (sender, recipients in order, content modulo '
              'the final CRLF), the extension sets on both sides, and the relay result with the edge reply. Address quoting and '
              'header serialisation are codec fidelity (identity oracle), hence exploration.',
         design='5/C06 and 8', technique='generated envelopes through real relay->edge hops, TLC trace validation with TLA+ equality/normalisation clauses',
-        note='HTTP relay -> WSGI edge and the LMTP client are not driven yet. ' + TB),
+        note='SMTP relay -> SMTP edge (with connection reuse) and HTTP relay -> WSGI edge (with keep-alive) are driven; the library has no LMTP-speaking edge, so the LMTP client has no hop of its own (it is driven against a scripted peer in C10/C11/C19); a completed STARTTLS inside the hop is not driven (C08 covers the TLS boundary). ' + TB),
 }
 
 HOOK_COMMITS = []
